@@ -699,6 +699,9 @@ func (f *File) CopySampleData(w io.Writer, rs io.ReadSeeker, trak *TrakBox,
 		for sNr := startNr; sNr <= endNr; sNr++ {
 			size += int64(stbl.Stsz.GetSampleSize(int(sNr)))
 		}
+		if size == 0 {
+			continue // nothing to copy (zero-size samples); a Read at the end of the input would report EOF
+		}
 		if mdat.IsLazy() {
 			_, err := rs.Seek(int64(offset), io.SeekStart)
 			if err != nil {
